@@ -458,7 +458,7 @@ impl RecomputeHeap {
 //@ name: link
 //@ as: fn link(&mut self, node: NodeRef)
 //@ cells: queues
-//@ rule R5: `q.borrow_mut().push_back(node);` => `q.push_back(node);` x1
+//@ rule R5 re: `(\w+)\.borrow_mut\(\)\.push_back\((\w+)\);` => `\1.push_back(\2);` x1
 //@ props: C05 C06 C11 C19
 //@ contract:
 //@|     requires old(self).wf(), 0 <= node_height(&*node) <= old(self).mha(),
@@ -495,7 +495,7 @@ impl RecomputeHeap {
 //@ impl: impl RecomputeHeap
 //@ name: unlink
 //@ as: fn unlink(&mut self, node: &NodeRef)
-//@ rule R5: `let mut q = queue.borrow_mut();` => `let q = queue;` x1
+//@ rule R5 re: `let mut (\w+) = (\w+)\.borrow_mut\(\);` => `let \1 = \2;` x1
 //@ rule R8: `q.iter().position(|x| rc_thin_ptr_eq(x, node))` => `vx_position_same_node(q, node)` x1
 //@ props: C05 C06 C11 C19
 //@ contract:
@@ -515,7 +515,7 @@ impl RecomputeHeap {
 //@ name: unlink
 //@ as: fn unlink__not_queued_must_panic(&mut self, node: &NodeRef)
 //@ panics: diverge
-//@ rule R5: `let mut q = queue.borrow_mut();` => `let q = queue;` x1
+//@ rule R5 re: `let mut (\w+) = (\w+)\.borrow_mut\(\);` => `let \1 = \2;` x1
 //@ rule R8: `q.iter().position(|x| rc_thin_ptr_eq(x, node))` => `vx_position_same_node(q, node)` x1
 //@ props: C05 C06 C11 C19
 //@ contract:
@@ -573,8 +573,8 @@ impl RecomputeHeap {
 //@ rule R5: `let queues = (&self.queues);` => `let queues = &mut self.queues;` x1
 //@ rule R5: `let mut queue;` => `let mut queue: &mut RQueue;` x1
 //@ rule R5: `queues.get(` => `queues.get_mut(` x1
-//@ rule R5: `queue.borrow().is_empty()` => `queue.is_empty()` x1
-//@ rule R5: `let mut q = queue.borrow_mut();` => `let q = queue;` x1
+//@ rule R5 re: `(\w+)\.borrow\(\)\.is_empty\(\)` => `\1.is_empty()` x1
+//@ rule R5 re: `let mut (\w+) = (\w+)\.borrow_mut\(\);` => `let \1 = \2;` x1
 //@ props: C05 C06 C11 C19
 //@ contract:
 //@|     requires old(self).sched_inv(),
@@ -606,7 +606,7 @@ impl RecomputeHeap {
 //@ as: fn link__too_high_must_panic(&mut self, node: NodeRef)
 //@ cells: queues
 //@ panics: diverge
-//@ rule R5: `q.borrow_mut().push_back(node);` => `q.push_back(node);` x*
+//@ rule R5 re: `(\w+)\.borrow_mut\(\)\.push_back\((\w+)\);` => `\1.push_back(\2);` x*
 //@ props: C05 C06 C11 C19
 //@ contract:
 //@|     requires old(self).wf(), node_height(&*node) > old(self).mha() || node_height(&*node) < 0,
